@@ -15,6 +15,16 @@ CLAIMED = {
         "Static: every function of core/notes.py is evaluated abstractly on 7 letters x a symbolic run of accidentals of any length/order and on malformed-shape classes; the closed forms (natural + sharps - flats mod 12, +-1 for augment/diminish, |net| homogeneous accidentals, table row selection) are compared with an oracle, and both int->name tables are checked row by row. Each held instance covers an unbounded family of spellings, which example tests and bounded enumeration cannot.",
         "Decides the structural clauses listed in DESIGN section C01; the induction from per-character summaries to whole strings is argued in DESIGN, not machine-checked. Not decided: behaviour on the empty string. Trusted: CPython ast, the abstract evaluator (validated by variants/c01.py), oracle constants in engine/notesdom.py.",
         "DESIGN.md section 2, C01"),
+    "C02": (
+        "abstract interpretation of the 17 interval constructors to (letter offset, semitone) summaries; Hoare-style loop-invariant check of the correction helper; interval+congruence evaluation of its normalisation; truth tables of measure/consonance over finite abstract domains",
+        "Static: every constructor is reduced, for 7 letters x arbitrary accidentals, to the letter and semitone constant it hands to the correction helper and compared with the interval table of theory; the helper's loop invariant (compared value == measure(note1, note2)), its direction pairing (termination, <= 11 steps) and its normalisation/rebuild (pitch preserved mod 12, <= 6 unmixed accidentals) are verified on every abstract path; measure is shown congruent to the pitch-class difference with range 0..11 and the consonance predicates are evaluated on all 12 measure values x flag.",
+        "Decides the structural clauses of DESIGN section C02. Relies on C01 (note_to_int summary) and C04 (key C = naturals) rules; the composition argument is in DESIGN. Trusted: CPython ast, the abstract evaluator (validated by variants/c02.py), the oracle table.",
+        "DESIGN.md section 2, C02"),
+    "C03": (
+        "abstract interpretation of intervals.determine on 49 letter pairs x symbolic accidentals (name/shorthand compared with the offset interval on each path), of from_shorthand on 7 letters x 35 shorthands x up/down with the helper's post-condition as summary, alias/net-effect evaluation of invert",
+        "Static: on every abstract path of determine the interval number equals the letter span, the quality word matches the range of the semitone offset on that path, and the shorthand's net accidental equals the offset as a linear form (no information lost); from_shorthand lands on the required letter and pitch offset for all 490 (letter, shorthand, direction) combinations with arbitrary input accidentals; invert returns a fresh reversed list and leaves its argument unchanged.",
+        "Decides letter and pitch class, not the exact spelling produced by composing determine with from_shorthand for mixed or >6-accidental spellings (see NOT_DECIDED in the evidence). Relies on C01/C02 summaries. Trusted: CPython ast, abstract evaluator (variants/c03.py), oracle.",
+        "DESIGN.md section 2, C03"),
 }
 
 NOT_YET = "rules for this property are not built yet in this round (planned: see DESIGN.md section 2); not claimed until they are"
